@@ -8,19 +8,22 @@ ROOT = os.path.dirname(os.path.dirname(os.path.abspath(__file__)))
 CHECKS = {
     "C08": ("exploration", "runtime monitoring: differential oracle — for random type systems over every implemented representation strategy and generated inhabitants, the read-out monitor compares the type-level view and the representation view of nodes built through both builders with a reference model of the strategy relation; codec round trips through the representation builder compared byte-for-byte and value-for-value",
             "Held on the type systems and values observed for the reflection binding (inferred Go types); generated code runs the same monitor inside C13. Sampling of type systems (non-cyclic, depth <= 4) and values.",
-            "Trusted: internal/ref/schema (strategy relation written from the IPLD Schema specification), internal/obs. Tuple structs only with trailing absents.", "DESIGN.md §2 C08"),
+            "Trusted: lib/ref/schema (strategy relation written from the IPLD Schema specification), lib/obs. Tuple structs only with trailing absents.", "DESIGN.md §2 C08"),
     "C09": ("exploration", "runtime monitoring: differential oracle — conforming values and random local mutations of them (type level and representation level, directly and through dag-cbor(relaxed)/dag-json) are fed to typed builders; accept/reject, error-not-panic and the accepted value are compared with a reference conformance decision",
             "Held on the inputs observed for the reflection binding; generated code runs the same monitor inside C13. Sampling.",
-            "Trusted: internal/ref/schema ParseType/ParseRepr.", "DESIGN.md §2 C09"),
+            "Trusted: lib/ref/schema ParseType/ParseRepr.", "DESIGN.md §2 C09"),
+    "C13": ("exploration", "runtime monitoring: per batch the generator in the working tree is run on freshly drawn type systems (every struct, map, list and union strategy it supports, optional/nullable fields, complex keys), the output is compiled with go build into a driver linked with the monitors, and the driver feeds the same conforming and mutated inputs, at type and representation level, to the generated prototypes and to bindnode prototypes of the same schema in lock-step: accept/reject, panic, type-level read-out, representation read-out and dag-cbor/dag-json bytes are compared; the C08 view monitor and the C09 conformance monitor run on the generated engine against the reference model as well",
+            "Held on the type systems and inputs observed: every generated package compiled, and the two engines agreed on everything compared, apart from one known finding (a tuple struct value with an absent optional before a present one, which has no representation, is improvised differently). Sampling of type systems and inputs.",
+            "Trusted: go build as the compile oracle; lib/ref/schema where the engines are judged against the reference and not only each other. Enums, Any and listpairs are outside the generator's feature set.", "DESIGN.md §2 C13"),
     "C16": ("exploration", "runtime monitoring: model-based monitor of transform sequences — each FocusedTransform result, callback argument, error outcome, set of blocks written and the graph reloaded from the new root are compared with a reference functional update over the abstract graph; the input tree is re-read after every step; WalkTransforming results compared with the reference selector walk's matches on link-free trees; a probe records the walking transform across a link",
             "Held on the transform sequences observed (existing/new/append/delete targets, through links, with unavailable blocks) apart from one known finding (WalkTransforming inlines linked blocks). Sampling.",
-            "Trusted: the reference update in internal/props/c16.go (documented FocusedTransform semantics), internal/ref/sel, internal/ref/cbor.", "DESIGN.md §2 C16"),
+            "Trusted: the reference update in lib/props/c16.go (documented FocusedTransform semantics), lib/ref/sel, lib/ref/cbor.", "DESIGN.md §2 C16"),
     "C07": ("exploration", "runtime monitoring: differential oracle — visits (path, node value, reason) and link loads recorded at the callback and storage boundaries of WalkAdv/WalkMatching are compared with a reference denotational walk of the selector AST over the abstract graph; each selector compiled three ways (builder, spec tree, DAG-JSON text)",
             "Held on the (graph, selector) pairs observed, for all clause kinds incl. recursion limits, edges, stop-at and subset matchers. Sampling; the oracle is a model written for this task (see level_note).",
-            "Trusted: internal/ref/sel (specified semantics; repository doc comments where the spec is silent). A stricter-than-specified model would show as a false alarm; every disagreement seen on the unchanged tree was examined (DESIGN §4).", "DESIGN.md §2 C07"),
+            "Trusted: lib/ref/sel (specified semantics; repository doc comments where the spec is silent). A stricter-than-specified model would show as a false alarm; every disagreement seen on the unchanged tree was examined (DESIGN §4).", "DESIGN.md §2 C07"),
     "C14": ("exploration", "runtime monitoring: during walks every visited (path, node) is resolved back from the root three ways (Get, Focus, stepwise LookupBySegment with link loading) and compared with the visited node and with a reference resolver over the abstract graph; paths are kept beyond the callback and resolved again after the walk; all positions enumerated from the nodes' own keys/indices; perturbed (partially existing) paths must fail exactly when the reference says so; String/ParsePath round trip",
             "Held on the graphs, walks and paths observed. Sampling of graphs; per graph all positions (capped at 400) and all visits are checked.",
-            "Trusted: the reference resolver in internal/props/c14.go, internal/obs.", "DESIGN.md §2 C14"),
+            "Trusted: the reference resolver in lib/props/c14.go, lib/obs.", "DESIGN.md §2 C14"),
     "C15": ("exploration", "runtime monitoring with a metamorphic oracle: restricted walks (every node budget 0..|U|+2, every link budget 0..|L|+1, start-at every visited path, visit-links-once, loader skip sets) compared with the implementation's own unrestricted visit and load sequences recorded at the callback and storage boundaries",
             "Held on the (graph, selector) pairs observed; per pair the budget and start-at spaces are enumerated completely (sampled for walks longer than 40-60 visits).",
             "Trusted: nothing beyond the unrestricted walk being deterministic (checked). No preloader.", "DESIGN.md §2 C15"),
@@ -38,28 +41,28 @@ CHECKS = {
             "Trusted: allocation constants calibrated on the unchanged tree (>=4x headroom); the bound is relative to the configured budget.", "DESIGN.md §2 C10"),
     "C04": ("exploration", "runtime monitoring: differential oracle — the encoder's output is read by an independent DAG-JSON reader (encoding/json token stream + reserved-form rules) and by the library decoder, both compared with the abstract value; encodings compared across insertion orders and implementations; failed decodes interleaved",
             "Held on the executions observed apart from two known findings with one cause in the pinned dependency refmt (integral floats are written without '.' and so change kind or stop decoding). Sampling with boundary bias.",
-            "Trusted: encoding/json as tokenizer, go-cid for the CID string form, internal/ref/json.", "DESIGN.md §2 C04"),
+            "Trusted: encoding/json as tokenizer, go-cid for the CID string form, lib/ref/json.", "DESIGN.md §2 C04"),
     "C12": ("exploration", "runtime monitoring: model-based monitor of assembler call sequences — generated legal sequences with the two pinned rejections (repeated key in three call forms; unacceptable kind) injected at random positions, outcome class per call and read-out of Build() checked against a sequential model of the contract; Reset/reuse sequences",
-            "Held on the sequences observed for basicnode, bindnode (struct, typed maps, renamed representation, Any map; type and representation level) and the checked-in generated code, apart from one known finding (generated typed maps accept a repeated key through AssembleKey). Freshly generated code is exercised by C13.",
-            "Trusted: the sequential contract model in internal/props/c12.go and internal/obs. Misuse orders are never generated.", "DESIGN.md §2 C12"),
+            "Held on the sequences observed for basicnode, bindnode (struct, typed maps, renamed representation, Any map; type and representation level) and the checked-in generated code. Freshly generated code is exercised by C13.",
+            "Trusted: the sequential contract model in lib/props/c12.go and lib/obs. Misuse orders are never generated.", "DESIGN.md §2 C12"),
     "C11": ("exploration", "runtime monitoring: snapshot-and-reread monitor — every tracked node is read out in full right after production and again after each step of a generated history of later library operations (builder reset/reuse, assign-and-extend, transforms, walks, subset matches, further loads and decodes)",
             "Held on the histories observed: no tracked node from any producer changed its read-out, and no accessor disagreed with itself on a second read. Sampling of producers and histories.",
-            "Trusted: internal/obs read-out monitor. Callers writing into slices they own are excluded as the property states.", "DESIGN.md §2 C11"),
+            "Trusted: lib/obs read-out monitor. Callers writing into slices they own are excluded as the property states.", "DESIGN.md §2 C11"),
     "C05": ("exploration", "runtime monitoring: histories of store/compute/load operations checked online against a sequential model (write-once map) with reference links (stdlib digests, hand-built CIDs) over reference block bytes",
             "Held on the histories observed: every Store/ComputeLink returned the reference link, storage held exactly the reference bytes, every load form returned the stored value and bytes, results handed out earlier did not change later. Sampling of histories and configurations.",
-            "Trusted: internal/ref/link, internal/ref/cbor, stdlib crypto; for cbor/json/dag-json the expected bytes come from the codec's own direct Encode.", "DESIGN.md §2 C05"),
+            "Trusted: lib/ref/link, lib/ref/cbor, stdlib crypto; for cbor/json/dag-json the expected bytes come from the codec's own direct Encode.", "DESIGN.md §2 C05"),
     "C06": ("fault_enumeration", "runtime monitoring with fault injection at the storage boundary: per stored block, exhaustive bit flips, truncations, read-error offsets, extensions, substitutions, chunkings; writer/encoder failures on the store side with a recording committer",
             "For each corpus block every fault of the listed classes was injected into each of Load/LoadRaw/LoadPlusRaw/Fill and the outcome compared with an independent digest of the served bytes; exhaustive per block, sampling over blocks.",
-            "Trusted: stdlib digests + internal/ref/link. (0,nil) reads are not part of the fault family (see DESIGN §5).", "DESIGN.md §2 C06"),
+            "Trusted: stdlib digests + lib/ref/link. (0,nil) reads are not part of the fault family (see DESIGN §5).", "DESIGN.md §2 C06"),
     "C01": ("exploration", "runtime monitoring: read-out monitor (every accessor twice, both iterators, every lookup form, wrong-kind probes) over nodes built by randomly drawn legal build programs, compared with the abstract value; DeepEqual/Copy compared with model equality",
             "Held on the executions observed: every generated value built by several legal call sequences into basicnode (Any and kind prototypes) and bindnode Any-map/list bindings read back as exactly that value with no internal disagreement. Sampling with boundary bias, not a proof.",
-            "Trusted: internal/obs read-out monitor, internal/model. Typed value spaces are covered by C08/C13.", "DESIGN.md §2 C01"),
+            "Trusted: lib/obs read-out monitor, lib/model. Typed value spaces are covered by C08/C13.", "DESIGN.md §2 C01"),
     "C02": ("exploration", "runtime monitoring: differential oracle (independent canonical DAG-CBOR reference encoder) over generated values, all insertion orders of small maps, head-boundary sweep, interleaved failed encodes",
             "Held on the executions observed: every generated value, in several insertion orders and node implementations, encoded to exactly the reference encoder's bytes; EncodedLength matched; decode read back the key-sorted value. Sampling with boundary bias, not a proof.",
-            "Trusted: internal/ref/cbor encoder (written from the spec), go-cid for CID parsing.", "DESIGN.md §2 C02"),
+            "Trusted: lib/ref/cbor encoder (written from the spec), go-cid for CID parsing.", "DESIGN.md §2 C02"),
     "C03": ("exploration", "runtime monitoring: differential oracle (independent strict reference decoder) over an exhaustive short-input space plus single-point, multi-point and structure-aware mutations of valid encodings; basicnode and recording-assembler targets",
             "Held on the executions observed; the sub-space of all byte strings of length 0-2 (quick) / 0-3 (thorough) is enumerated completely, the rest is mutation sampling. One known finding in the pinned dependency refmt (-2^64 decodes as 0).",
-            "Trusted: internal/ref/cbor decoder, go-cid for CID syntax; UTF-8 validity and resource limits are outside the oracle.", "DESIGN.md §2 C03"),
+            "Trusted: lib/ref/cbor decoder, go-cid for CID syntax; UTF-8 validity and resource limits are outside the oracle.", "DESIGN.md §2 C03"),
 }
 
 NOT_YET = "check not built yet in this phase (see DESIGN.md section 2 for the intended monitor); not claimed"
